@@ -136,7 +136,7 @@ fn layer_b(cli: &Cli, rep: &mut Report) {
         let w = WorldOpts {
             scenes: 1 + rng.usize(2),
             same_region: rng.chance(0.5),
-            preset: *rng.pick(&["crossing", "convoy", "crowd", "convoy", "crowd", "random", "stop-and-go", "teleport"]),
+            preset: *rng.pick(&["crossing", "convoy", "crowd", "convoy", "crowd", "random", "stop-and-go", "teleport", "pack"]),
             rotated: rng.chance(0.25),
             features: false,
             feat_dim: 1,
